@@ -276,12 +276,80 @@ def run(repo, rep, tier):
                   if k[0] not in ('_check_array_parms',
                                   '_check_embedded_object')}
 
+    _vg_cache = {}
+
+    def origin_needs_value(e):
+        """the raise the Esc originates from executes only when the origin
+        function's `value` parameter is not None (so a constructor call
+        without a value cannot reach it).  Origins without a `value`
+        parameter are the converting ones, reached through cimvalue(value,
+        type), which returns None for None."""
+        k = (e.file, e.func, e.line)
+        if k in _vg_cache:
+            return _vg_cache[k]
+        ok = True
+        of = next((f for f in repo.all_funcs()
+                   if f.file == e.file and f.qualname == e.func), None)
+        if of is not None and 'value' in of.params and \
+                e.func in ('_check_array_parms', '_check_embedded_object'):
+            from ..cfg import stmt_facts, GuardWalker
+            ok = False
+            for st, (facts, _t) in stmt_facts(of.node).items():
+                if st.lineno <= e.line <= getattr(st, 'end_lineno',
+                                                   st.lineno) and \
+                        isinstance(st, ast.Raise):
+                    atoms = []
+                    for t, pol in facts:
+                        atoms += list(GuardWalker._atoms(t, pol))
+                    ok = any((norm(t), pol) in (
+                        ('value is not None', True), ('value is None', False),
+                        ('value', True)) for t, pol in atoms)
+        _vg_cache[k] = ok
+        return ok
+
+    _cp_cache = {}
+
+    def pruned_by_constants(call, func, target, e):
+        """the call in `target` that leads to the origin function is
+        unreachable for the literal arguments of this constructor call
+        (e.g. embedded_object=False never enters `if embedded_object:`)"""
+        from ..constprop import const_args, reachable_under
+        consts = const_args(call, target)
+        if not consts:
+            return False
+        k = (target.fq, e.func, tuple(sorted(
+            (a, repr(b)) for a, b in consts.items())))
+        if k in _cp_cache:
+            return _cp_cache[k]
+        last = e.func.split('.')[-1]
+        sts = [st for st in walk_no_nested(target.node)
+               if isinstance(st, ast.stmt) and
+               not isinstance(st, (ast.If, ast.For, ast.While, ast.Try,
+                                   ast.With)) and
+               any(isinstance(c, ast.Call) and
+                   (dotted(c.func) or '').split('.')[-1] == last
+                   for c in ast.walk(st))]
+        res_ = False
+        if sts:
+            res_ = True
+            for st in sts:
+                r, _n = reachable_under(target, st, consts)
+                if r is not False:
+                    res_ = False
+                    break
+        _cp_cache[k] = res_
+        return res_
+
     def esc_filter(call, func, target, e):
         if target.file in OBSERVER_FILES:
             return False
         if func.file == TP and target.name in ('__init__', '__new__') and \
                 (e.func, e.exc) in VALUE_ORIGINS and \
-                value_arg_is_none(call, target):
+                pruned_by_constants(call, func, target, e):
+            return False       # unreachable for these literal arguments
+        if func.file == TP and target.name in ('__init__', '__new__') and \
+                (e.func, e.exc) in VALUE_ORIGINS and \
+                value_arg_is_none(call, target) and origin_needs_value(e):
             return False       # constructor called without a value
         if func.file == TP and target.name in ('__init__', '__new__') and \
                 (e.func, e.exc) in CONVERTING and \
